@@ -79,6 +79,8 @@ def gen_case(rng, params):
                     # the borrower object is dropped and collected (a helper function returned): nothing may happen to
                     # the transport the lender got back
                     ops.append(f"drop:{b}"); dropped.add(b)
+        elif k < 0.66:
+            ops.append(f"fb:{h}")             # a borrow() that fails while it is being set up (harness-level, see _run)
         elif k < 0.74:
             ops.append(f"take:{h}"); n_handles += 1
         elif k < 0.80:
@@ -108,6 +110,13 @@ def dcls(i):
     return _death[i]
 
 
+class _NoCopy:
+    """a log stream that cannot be deep-copied (as a real file object or sys.stdout cannot)"""
+    def write(self, s): return len(s)
+    def flush(self): pass
+    def __deepcopy__(self, memo): raise TypeError("cannot copy this stream")
+
+
 def cfg_str(ch):
     p = "none" if ch.prompt is None else hx(ch.prompt)
     ds = "+".join(f"{hx(s)}.{e.idx}" for (s, e, _r) in ch.death_strings) or "."
@@ -125,8 +134,8 @@ def lean_line(line):
             pending.append(f[1])            # creating the context is not an event
         elif f[0] == "be":
             out.append(f"b+:{pending.pop(0)}" if pending else "io:9999")
-        elif f[0] == "drop":
-            pass                            # nor is dropping a handle object
+        elif f[0] in ("drop", "fb"):
+            pass                            # nor is dropping a handle object, nor a borrow() whose set-up FAILED
         else:
             out.append(f"io:{f[1]}" if f[0] in ("io", "it+", "it.") else op)
     return " ".join(out)
@@ -170,6 +179,21 @@ def _run(line):
                     pending.append((h, None))       # (a refusal at creation time: it is repeated at entry below)
             else:
                 pending.append((h, None))
+            continue
+        if f[0] == "fb":
+            # a borrow() whose set-up fails: a log stream that cannot be deep-copied is attached, so the copy of the
+            # channel object that borrow() makes raises.  No borrower ever exists; the attempt must leave NOTHING behind
+            # (for the model it is not an event) — the operations that follow show whether the lender was locked out
+            h = int(f[1])
+            if h < len(handles) and handles[h] is not None:
+                try:
+                    with handles[h].with_stream(_NoCopy()):
+                        cm = handles[h].borrow()
+                        cm.__enter__()
+                        cm.__exit__(None, None, None)
+                        out.append("fb-did-not-fail")
+                except (TypeError, tbot.error.ChannelTakenError, tbot.error.ChannelBorrowedError):
+                    pass
             continue
         if f[0] == "drop":
             import gc
